@@ -56,8 +56,13 @@ class Checker(object):
         :raises tlslite.errors.TLSAuthenticationError: If the other
             party's certificate chain is missing or bad.
         """
-        if not self.checkResumedSession and connection.resumed:
+        if not self.checkResumedSession and connection.resumed and \
+                connection._client:
             return
+        # a server cannot take back the session tickets it sent before this
+        # check ran on the full handshake (and a ticket is all a resuming
+        # client needs), so the identity a server restores from a resumed
+        # session is always checked again
 
         if self.x509Fingerprint:
             if connection._client:
